@@ -51,6 +51,8 @@ func (d *drv) Reset(env *core.Env, b *core.Behaviour) error {
 	if len(b.Steps) > 0 && b.Steps[0].Op() == "Cfg" {
 		lo, hi = int64(b.Steps[0].Int("lo")), int64(b.Steps[0].Int("hi"))
 	}
+	// dcs: blockchain.defCacheSize of the receivers of this process (0 = the default, 128 blocks)
+	w.dcs = int64(env.OptInt("dcs", 0))
 	if err := w.init(env.Seed, lo, hi); err != nil {
 		return err
 	}
@@ -162,6 +164,19 @@ func (d *drv) Apply(s core.Step) (any, any, error) {
 		return d.reply(h1 > h0, "blk", "none")
 	case "Extend", "Fork":
 		return d.peer(s)
+	case "Reinit":
+		// the start-up rebuild of the volatile lookup caches from the database, on the idle node:
+		// BlockChain.InitCache is what a restart runs before the node serves anything (chain.go
+		// InitBlockChain); the TxHeight duplicate cache exists nowhere else
+		_, h, err := d.n.Tip()
+		if err != nil {
+			return nil, nil, err
+		}
+		d.n.Chain.InitCache(h)
+		if err := d.n.settle(); err != nil {
+			return nil, nil, err
+		}
+		return d.reply(true, "ok", "rej")
 	}
 	return nil, nil, fmt.Errorf("unknown op %q", s.Op())
 }
